@@ -641,6 +641,45 @@ def check_debug_asserts(chk, rule="R1.9"):
     chk.expect(bad == 0, rule, "debug-assertions:none-effectful", None, "%d debug assertion(s) in the library, %d with effects / profile conditions" % (n, bad), None)
 
 
+STATEFUL_ADT = ("core::cell::", "std::sync::once_lock::", "std::sync::lazy_lock::", "core::sync::atomic::", "std::sync::mutex::", "std::sync::rwlock::",
+                "std::sync::poison::", "std::sync::once::", "std::thread::local::", "once_cell::", "lazy_static::", "spin::", "parking_lot::")
+
+
+def check_stateless(chk, prog, cfg, rule="R5.8"):
+    """the library keeps no state between calls: a `static` cache inside a generic function is shared by all instantiations, a cell makes a definition depend
+    on what was asked before"""
+    chk.rule(rule, "statelessness: no function of the library touches a value of an interior-mutability / lazy-initialisation type (Cell, RefCell, OnceCell, "
+             "OnceLock, LazyLock, Atomic*, Mutex, RwLock, Once, thread-local keys) and the library declares no `static mut`: type_info and the registry "
+             "operations are functions of their arguments only (a cache in a `static` of a generic function is shared by all its instantiations)")
+    memo = {}
+
+    def stateful(ix, depth=0):
+        if ix in memo:
+            return memo[ix]
+        memo[ix] = False
+        t = prog.types[ix]
+        r = t["k"] == "adt" and any(t["d"].startswith(p_) for p_ in STATEFUL_ADT)
+        if not r and depth < 12:
+            subs = [a for key in ("a", "ts", "upvars", "in") for a in (t.get(key) or []) if isinstance(a, int)]
+            subs += [t[key] for key in ("t", "out") if isinstance(t.get(key), int)]
+            r = any(stateful(s_, depth + 1) for s_ in subs)
+        memo[ix] = r
+        return r
+    n = 0
+    bad = 0
+    for p_, raw in prog._bodies_raw.items():
+        f = prog.fns.get(p_, {})
+        loc = f.get("loc") or ""
+        if "::tests::" in p_ or "/tests" in loc:
+            continue
+        n += 1
+        hit = [prog.ty_s(l["ty"]) for l in raw["locals"] if stateful(l["ty"])]
+        if hit:
+            bad += 1
+            chk.fail(rule, "state:" + mir.strip_generics(p_)[:90], loc, "%s works with %s: hidden state between calls" % (mir.strip_generics(p_), sorted(set(hit))[:3]), cfg)
+    chk.expect(bad == 0, rule, "stateless:library", None, "%d function bodies inspected, %d touching interior-mutability / lazily initialised values" % (n, bad), cfg)
+
+
 def check_total_ops(chk, rule="R12.4"):
     """the runtime builder's operations are total: no assertion / panic macro in their bodies (a `debug_assert!` there rejects registration orders the
     documentation allows, e.g. forward references between mutually recursive types)"""
